@@ -79,15 +79,25 @@ static bool gen_regex(zckDL *dl) {
         return false;
     dl->dl_regex = zmalloc(sizeof(regex_t));
     if(!dl->dl_regex || !create_regex(dl->zck, dl->dl_regex, regex_n)) {
+        /* Never leave an allocated but uncompiled regex behind */
+        free(dl->dl_regex);
+        dl->dl_regex = NULL;
         free(regex_n);
         return false;
     }
     free(regex_n);
     char *regex_e = add_boundary_to_regex(dl->zck, end, dl->boundary);
-    if(regex_e == NULL)
-        return false;
-    dl->end_regex = zmalloc(sizeof(regex_t));
-    if(!dl->end_regex || !create_regex(dl->zck, dl->end_regex, regex_e)) {
+    if(regex_e != NULL)
+        dl->end_regex = zmalloc(sizeof(regex_t));
+    if(regex_e == NULL || !dl->end_regex ||
+       !create_regex(dl->zck, dl->end_regex, regex_e)) {
+        if(regex_e != NULL) {
+            free(dl->end_regex);
+            dl->end_regex = NULL;
+        }
+        regfree(dl->dl_regex);
+        free(dl->dl_regex);
+        dl->dl_regex = NULL;
         free(regex_e);
         return false;
     }
@@ -241,8 +251,12 @@ size_t multipart_get_boundary(zckDL *dl, char *b, size_t size) {
     if(dl->hdr_regex == NULL) {
         char *regex = "boundary *= *(.*?) *\r";
         dl->hdr_regex = zmalloc(sizeof(regex_t));
-        if(!dl->hdr_regex || !create_regex(dl->zck, dl->hdr_regex, regex))
+        if(!dl->hdr_regex || !create_regex(dl->zck, dl->hdr_regex, regex)) {
+            /* Never leave an allocated but uncompiled regex behind */
+            free(dl->hdr_regex);
+            dl->hdr_regex = NULL;
             return 0;
+        }
     }
 
     /* Copy buffer to null-terminated string because POSIX regex requires null-
